@@ -67,7 +67,7 @@ var c18ExtraTokens = []string{"DAI", "USDC"}
 
 func init() {
 	RegisterEngine([]string{"C18"}, func() Engine { return C18Engine{} })
-	levels["C18"] = levelInfo{"fault_enumeration", "seeded generation of bridge/governance histories (one run = one PRNG seed = one world + one sequence of steps); at every tolerated-failure boundary reached the failure point is ENUMERATED on branches of the same committed state: (b) inbound bridge call: callee mode words {no action, every single action, all actions} x endings {revert, revert with data, invalid opcode, endless loop}, the BridgeCallMaxGasLimit ladder over a callee that would otherwise succeed (every limit = one cut point), every token pair of the call disabled in turn (first, middle, last of up to four tokens), receiver contract / EOA / memo send-call-to, refund address equal / different / unfunded, execution through the keeper and through an EVM message to the executeClaim precompile; (c) proposals of n messages of one type with the invalid (or reverting / out-of-gas contract call) message at every position j, against the invalid message alone and a message-less proposal; (a) every failing attestation handler (existing bridge token, FX with wrong decimals, unknown oracle-set nonce) against a claim whose handler only parks a pending record; plus the same inputs through real transactions in the committed history. Every pair (failing variant, reference failure) is one evaluation of the equal-stores oracle; every failing variant one evaluation of the designated-outcome-only oracle. distinct = hash of (step shapes, tx success); non-trivial = at least one late-failure vs first-failure store comparison was made"}
+	levels["C18"] = levelInfo{"fault_enumeration", "seeded generation of bridge/governance histories (one run = one PRNG seed = one world + one sequence of steps); at every tolerated-failure boundary reached the failure point is ENUMERATED on branches of the same committed state: (b) inbound bridge call: callee mode words {no action, every single action, all actions} x endings {revert, revert with data, invalid opcode, endless loop}, the BridgeCallMaxGasLimit ladder over a callee that would otherwise succeed (every limit = one cut point), every token pair of the call disabled in turn (first, middle, last of up to four tokens), receiver contract / EOA / memo send-call-to, refund address equal / different / unfunded, execution through the keeper and through an EVM message to the executeClaim precompile; (c) proposals of n messages of one type with the invalid (or reverting / out-of-gas contract call) message at every position j, against the invalid message alone and a message-less proposal, and scenarios of 2-3 proposals ending in the SAME block in the orders {fails-late, passes, fails-first} (LP, PL, LPF, LFP, PLF, PFL, FLP, FPL, LLP, LPP, LPL, PLP) against the same block with the failing proposals failing first / replaced by message-less ones, on branches and through real blocks; (a) every failing attestation handler (existing bridge token, FX with wrong decimals, unknown oracle-set nonce) against a claim whose handler only parks a pending record; plus the same inputs through real transactions in the committed history. Every pair (failing variant, reference failure) is one evaluation of the equal-stores oracle; every failing variant one evaluation of the designated-outcome-only oracle. distinct = hash of (step shapes, tx success); non-trivial = at least one late-failure vs first-failure store comparison was made"}
 }
 
 // ---------------------------------------------------------------------------------------
@@ -93,7 +93,7 @@ func (e C18Engine) GenConfig(rng *rand.Rand, prop string, tier string) RunConfig
 	if tier == "thorough" {
 		rc.Steps = 45 + rng.IntN(40)
 	}
-	base := map[string]int{"call": 40, "commit": 14, "att": 8, "gov": 14, "govcommit": 5, "toggle": 4, "fund": 4, "tick": 3, "gasparam": 2}
+	base := map[string]int{"call": 40, "commit": 14, "att": 8, "gov": 14, "govcommit": 5, "toggle": 4, "fund": 4, "tick": 3, "gasparam": 2, "govmulti": 12, "govmulticommit": 7}
 	rc.Weights = map[string]int{}
 	for _, k := range sortedKeys(base) {
 		f := []int{1, 1, 1, 2, 3}[rng.IntN(5)]
@@ -292,6 +292,11 @@ func (e C18Engine) Apply(r *Run, s *Step) *Outcome {
 			o.Halt, o.Note = gr.Halt, gr.Status+" "+gr.Note
 			r.Probe("gov-" + strings.ToLower(gr.Status) + ":bridge-call-max-gas")
 		}
+		return o
+	case "c18_govmulti":
+		st.Chk.before(r, s)
+		o := &Outcome{Extra: map[string]string{}}
+		e.applyGovMulti(r, s, o)
 		return o
 	case "c18_govpass":
 		st.Chk.before(r, s)
